@@ -64,6 +64,11 @@ Definition oracle (c : Case) : bool :=
   | CDurFormat u v (Ok t) => out_z_eqb (parse_duration u t) (Ok v)
   | CDurFormat _ _ _ => false
   | CDateW _ _ _ _ _ _ (Panic _) | CTimeW _ _ _ _ _ _ _ (Panic _) | CTsW _ _ _ _ _ _ _ _ (Panic _) => false
+  (* an accepted text is stored as exactly the integer the Arrow type defines for the instant it names; a text that names no
+     instant of the type (a 61st second, a 30th of February, a value outside the storage integer) is never accepted *)
+  | CDateW f lo hi y m d (Ok z) => out_z_eqb (date_write f lo hi y m d) (Ok z)
+  | CTimeW u lo hi h mi s n (Ok z) => out_z_eqb (time_write u lo hi h mi s n) (Ok z)
+  | CTsW u y m d h mi s n (Ok z) => out_z_eqb (ts_write u y m d h mi s n) (Ok z)
   | CDateR _ _ (Panic _) | CTimeR _ _ (Panic _) | CTsR _ _ _ (Panic _) => false
   | _ => true
   end.
